@@ -225,7 +225,7 @@ pub fn run(ctx: &Ctx) -> i32 {
         });
     }
     let n = if ctx.thorough { 80_000 } else { 4_000 };
-    let names = ["ws", "meta", "mixed", "graph", "astral", "ab", "case", "classes", "sgr", "clusters"];
+    let names = ["ws", "meta", "mixed", "graph", "astral", "ab", "case", "classes", "sgr", "clusters", "tokens"];
     let alphabets: Vec<(String, Vec<String>)> = names.iter().map(|a| (a.to_string(), gen::alphabet(a))).collect();
     par_for(&ctx.run, n, |i, st| {
         let mut rng = Rng::new(seed, 0x60_0000 + i as u64);
